@@ -25,17 +25,19 @@ type c20Scenario struct {
 	oldBigger bool
 	noClobber bool
 	linked    bool // the existing entry is a symbolic link to the file that holds the document
+	readOnly  bool // the store directory is not writable for the storing uid (the entry file is)
 }
 
 var c20Scenarios = []c20Scenario{
-	{"first-store-missing-directory", false, false, false, false, false},
-	{"first-store-existing-directory", true, false, false, false, false},
-	{"overwrite-smaller-old", true, true, false, false, false},
-	{"overwrite-larger-old", true, true, true, false, false},
-	{"overwrite-no-clobber", true, true, false, true, false},
-	{"first-store-no-clobber", true, false, false, true, false},
-	{"first-store-missing-directory-no-clobber", false, false, false, true, false},
-	{"overwrite-entry-is-a-symbolic-link", true, true, false, false, true},
+	{"first-store-missing-directory", false, false, false, false, false, false},
+	{"first-store-existing-directory", true, false, false, false, false, false},
+	{"overwrite-smaller-old", true, true, false, false, false, false},
+	{"overwrite-larger-old", true, true, true, false, false, false},
+	{"overwrite-no-clobber", true, true, false, true, false, false},
+	{"first-store-no-clobber", true, false, false, true, false, false},
+	{"first-store-missing-directory-no-clobber", false, false, false, true, false, false},
+	{"overwrite-entry-is-a-symbolic-link", true, true, false, false, true, false},
+	{"overwrite-in-a-directory-the-storing-uid-cannot-write", true, true, false, false, false, true},
 }
 
 var c20Sizes = []int{100, 1000, 8000, 64000}
@@ -180,7 +182,7 @@ func c20Plan(tier string) (cases [][3]int) { // scenario, size index, chunk
 func init() {
 	core.Register(&core.Prop{
 		ID: "C20", Level: "fault_enumeration",
-		Rule: "for each scenario (first store into a missing directory, into an existing one, overwrite of a smaller and of a larger entry, overwrite with no-clobber, first store with no-clobber into an existing and into a missing directory, overwrite of an entry that is a symbolic link to the file holding the document) and document size (0.1, 1, 8, 64 KB) the storing child " +
+		Rule: "for each scenario (first store into a missing directory, into an existing one, overwrite of a smaller and of a larger entry, overwrite with no-clobber, first store with no-clobber into an existing and into a missing directory, overwrite of an entry that is a symbolic link to the file holding the document, overwrite in a directory where the storing uid may not create files but may write the entry) and document size (0.1, 1, 8, 64 KB) the storing child " +
 			"(one Store through the FileSystem backend, uid 65534) runs under a ptrace tracer that follows all threads and numbers, in one global order, the entry and exit stops of every file-system syscall touching the store directory. A fault-free run fixes the stop sequence; then the child is SIGKILLed at EVERY stop, " +
 			"and for every write to a file in the directory at each chosen prefix length (quick: 0,1,2,3, every top-level field boundary of the protobuf encoding +-1, half, len-2, len-1, padded to >=48 PRNG-chosen prefixes; thorough: EVERY prefix for documents <=8 KB, 4096 stratified prefixes at 64 KB) " +
 			"the length register is rewritten at the syscall entry, the kernel performs the short write and the child is killed at the exit. After each trial a fresh process retrieves the target id and two bystander ids; the outcome must be the complete old document, the complete new one, or an error return " +
@@ -289,6 +291,11 @@ func c20Case(c *core.C) {
 		chownR(work)
 		defer os.RemoveAll(work)
 		wstore := filepath.Join(work, "store")
+		if sc.readOnly {
+			// the directory belongs to root (no new files for the storing uid), the entries stay the uid's own
+			_ = os.Chown(wstore, 0, 0)
+			_ = os.Chmod(wstore, 0o755)
+		}
 		p.Watch = wstore
 		args := []string{"storeone", "-dir", wstore, "-docfile", filepath.Join(base, "new.pb")}
 		if sc.noClobber {
